@@ -68,19 +68,29 @@ pub fn execute_memoized_function<Db: Database>(
         db.get_storage().top_level_calls.push(derived_node_id);
     }
 
-    execute_memoized_function_inner(db, derived_node_id, inner_fn)
+    let (did_recalculate, time_updated) =
+        execute_memoized_function_inner(db, derived_node_id, inner_fn);
+    db.get_storage().register_dependency_in_parent_memoized_fn(
+        NodeKind::Derived(derived_node_id),
+        time_updated,
+    );
+    did_recalculate
 }
 
-/// The body of [`execute_memoized_function`], without top-level call tracking.
-/// Dependencies of a top-level call are verified while the dependency stack is
-/// still empty; they must not be mistaken for top-level calls, or they evict
-/// the actual top-level call from the LRU cache.
+/// The body of [`execute_memoized_function`], without the bookkeeping of a call.
+/// Dependencies are verified (see `derived_node_changed_since`) before the body of
+/// the function that depends on them is entered, i.e. while the *caller's* frame is
+/// on top of the dependency stack (or while the stack is empty). Verification is not
+/// a call: it must neither be recorded as a top-level call, or it evicts the actual
+/// top-level call from the LRU cache, nor be registered as a dependency of the caller,
+/// or the caller is re-executed whenever a transitive dependency changes, even if the
+/// intermediate result is unchanged.
 fn execute_memoized_function_inner<Db: Database>(
     db: &Db,
     derived_node_id: DerivedNodeId,
     inner_fn: InnerFn<Db>,
-) -> DidRecalculate {
-    let (did_recalculate, time_updated) = if let Some((derived_node, revision)) = db
+) -> (DidRecalculate, Epoch) {
+    if let Some((derived_node, revision)) = db
         .get_storage()
         .internal
         .get_derived_node_and_revision(derived_node_id)
@@ -107,12 +117,7 @@ fn execute_memoized_function_inner<Db: Database>(
     } else {
         let _create_span = debug_span!("creating_new_derived_node").entered();
         create_derived_node(db, derived_node_id, inner_fn)
-    };
-    db.get_storage().register_dependency_in_parent_memoized_fn(
-        NodeKind::Derived(derived_node_id),
-        time_updated,
-    );
-    did_recalculate
+    }
 }
 
 fn create_derived_node<Db: Database>(
@@ -253,7 +258,7 @@ fn derived_node_changed_since<Db: Database>(
     } else {
         return true;
     };
-    let did_recalculate = execute_memoized_function_inner(db, derived_node_id, inner_fn);
+    let (did_recalculate, _) = execute_memoized_function_inner(db, derived_node_id, inner_fn);
     matches!(
         did_recalculate,
         DidRecalculate::Recalculated | DidRecalculate::Error
